@@ -30,6 +30,8 @@ pub struct Scenario<S, SP: StateSpace<StateType = S>> {
     pub classes: Vec<String>,
     /// the bound on consecutive path states for C05 (None: not applicable)
     pub preconds_c04: bool,
+    /// Some(T): solve is given the real time limit T and no iteration budget (C06 runs)
+    pub timeout_ms: Option<u64>,
 }
 
 fn u01(v: u64) -> f64 {
@@ -105,6 +107,8 @@ pub struct GenOpts {
     pub per_iteration: bool,
     /// obstacle-free worlds (exact optimality / completeness oracles of C17, C18)
     pub free: bool,
+    /// real-clock runs (C06): no iteration budget, real timeouts, feasible and infeasible worlds
+    pub timing: bool,
 }
 
 pub fn build_table(r: &mut Sm, o: &GenOpts) -> Scenario<TState, TableSpace> {
@@ -258,6 +262,7 @@ pub fn build_table(r: &mut Sm, o: &GenOpts) -> Scenario<TState, TableSpace> {
         bias,
         radius: *r.pick(&[0.5, 1.0, 1.5, 3.0, 100.0]),
         seed: if r.chance(0.85) { Some(r.next() % 1000) } else { None },
+        build_secs: 3600.0,
     };
     let budgets: Vec<u64> = if o.per_iteration { vec![1] } else { vec![0, 1, 2, 3, 5, 8, 12, 20] };
     let mis = o.misuse && r.chance(0.5);
@@ -304,6 +309,7 @@ pub fn build_table(r: &mut Sm, o: &GenOpts) -> Scenario<TState, TableSpace> {
         real_metric: false,
         classes,
         preconds_c04: false,
+        timeout_ms: None,
     }
 }
 
@@ -365,6 +371,7 @@ fn real_params(r: &mut Sm, o: &GenOpts, extent: f64) -> Params {
         bias: *r.pick(&[0.0, 0.05, 0.05, 0.3, 1.0]),
         radius: extent * rscale,
         seed: if r.chance(0.9) { Some(r.next() % 100000) } else { None },
+        build_secs: 3600.0,
     }
 }
 
@@ -457,6 +464,11 @@ where
         });
         checkers.push(Arc::new(LogChecker::new(vi + 1, pred)));
     }
+    // C06: in half of the timing worlds the whole goal region of problem 1 is invalid (sealed goal)
+    let seal_goal = o.timing && r.chance(0.5);
+    if seal_goal {
+        classes.push("infeasible".into());
+    }
     let mut problems = vec![];
     let mut pdesc = vec![];
     for pi in 0..2u32 {
@@ -469,6 +481,14 @@ where
             start = mk_state(r);
         }
         let target = mk_state(r);
+        if seal_goal && pi == 0 {
+            // rebuild checker 1: additionally reject everything within 1.5 goal radii of the target
+            let old = checkers.remove(0);
+            let sp0 = space.clone();
+            let tg0 = target.clone();
+            let pred0: Pred<S> = Box::new(move |s: &S| (old.pred)(s) && !(sp0.distance(s, &tg0) <= goal_radius * 1.5));
+            checkers.insert(0, Arc::new(LogChecker::new(1, pred0)));
+        }
         let sp = space.clone();
         let tg = target.clone();
         let pred: Pred<S> = Box::new(move |s: &S| sp.distance(s, &tg) <= goal_radius);
@@ -509,7 +529,18 @@ where
             }),
         });
     }
-    let script = real_script(r, params.kind, o);
+    let mut script = real_script(r, params.kind, o);
+    let mut timeout_ms = None;
+    if o.timing {
+        let t = *r.pick(&[0u64, 1, 5, 30, 100]);
+        timeout_ms = Some(t);
+        script = if params.kind == PlannerKind::Prm {
+            vec![Call::Setup(0, 0), Call::Construct(u64::MAX), Call::Solve(u64::MAX)]
+        } else {
+            vec![Call::Setup(0, 0), Call::Solve(u64::MAX)]
+        };
+        space_desc.push(("timeout_ms", J::Int(t as i128)));
+    }
     space_desc.push(("obstacles", J::Arr(obs_desc)));
     space_desc.push(("problems", J::Arr(pdesc)));
     Scenario {
@@ -523,6 +554,7 @@ where
         real_metric: true,
         classes,
         preconds_c04: true,
+        timeout_ms,
     }
 }
 
@@ -530,7 +562,12 @@ pub fn build_rv(r: &mut Sm, o: &GenOpts) -> Scenario<RealVectorState, RealVector
     let dim = 2 + r.below(2) as usize;
     let (lo, hi) = (0.0, 10.0);
     let mut space = RealVectorStateSpace::new(dim, Some(vec![(lo, hi); dim])).unwrap();
-    let frac = pick_fraction(r);
+    let mut frac = pick_fraction(r);
+    let mut rv_classes = vec![];
+    if o.timing && r.chance(0.1) {
+        frac = 0.0;
+        rv_classes.push("zero_resolution".to_string());
+    }
     space.set_longest_valid_segment_fraction(frac);
     let extent = space.get_maximum_extent();
     let coords: Arc<dyn Fn(&RealVectorState) -> Vec<f64>> = Arc::new(|s| s.values.clone());
@@ -559,7 +596,7 @@ pub fn build_rv(r: &mut Sm, o: &GenOpts) -> Scenario<RealVectorState, RealVector
         hi,
         0.8,
         vec![("space", J::s("RealVector")), ("dim", J::Int(dim as i128)), ("fraction", J::Num(frac))],
-        vec![],
+        rv_classes,
     )
 }
 
